@@ -695,15 +695,24 @@ def run_shard(ctx, shard, nshards, tier, t_end, replay_cases=None):
         res['starts'] += 1
         return st['w']
 
+    def seed_for(si, n):
+        # the same seed with the case number in its URL(s), so that no case is answered from the cache
+        sd = dict(seeds0[si])
+        uid = b'u%06d' % n
+        sd['stream'] = sd['stream'].replace(b'u000000', uid)
+        if 'req' in sd:
+            sd['req'] = sd['req'].replace(b'u000000', uid)
+        return sd
+
     def run_one(w, case):
         si, mut, n = case
-        seed = build_seeds(base + 1, n)[si]
+        seed = seed_for(si, n)
         stream = apply_mut(tokenize(seed['stream']), mut)
         return w.run_stream(seed, stream)
 
     def describe(case):
         si, mut, n = case
-        seed = build_seeds(base + 1, n)[si]
+        seed = seed_for(si, n)
         toks = tokenize(seed['stream'])
         stream = apply_mut(toks, mut)
         return {'seed': seed['name'], 'mutation': [{'token_index': p, 'token': repr(toks[p])[:60], 'op': o} for p, o in mut],
@@ -735,6 +744,11 @@ def run_shard(ctx, shard, nshards, tier, t_end, replay_cases=None):
             key += ':' + seed['name'] + ':' + '+'.join(o for _, o in mut)
         d = describe(case)
         what = 'Squid failed on %s mutant %s of seed %s (%s): %s' % ('request' if seed['dir'] == 'req' else 'response', mut_name(mut), seed['name'], d['stream'][:400], ' | '.join(p2)[:1800])
+        dkey = hashlib.sha1(canon[si]['name'].encode() + b'\0' + apply_mut(canon_toks[si], mut)).digest()[:10]
+        res['evaluations'] += 1
+        res['distinct_keys'].add(dkey)
+        res['nontrivial_keys'].add(dkey)        # a stream that makes Squid fail was certainly processed
+        res['outcomes']['squid-failed'] = res['outcomes'].get('squid-failed', 0) + 1
         res['violations'].append((key, what, {'tier': tier, 'case': [si, [list(x) for x in mut], n], 'describe': d}))
         fresh()
 
